@@ -67,7 +67,7 @@ class C12(core.Prop):
         return gen._random_tree(rng, ops)
 
     def cases(self, rng, tier):
-        n = 40 if tier == 'quick' else 400
+        n = 40 if tier == 'quick' else 160
         out = []
         for _ in range(n):
             folds = rng.randint(2, 3 if tier == 'quick' else 5)
